@@ -119,9 +119,15 @@ int main(int argc, char **argv)
 {
     psX509Cert_t *chain = NULL, *trusted = NULL, *found = NULL, *c;
     int32 rc;
-    int violations = 0, allZero = 1;
+    int violations = 0, allZero = 1, controlsFailed = 0;
+    /* "a": validator part only (the verdict psX509AuthenticateCert leaves
+       behind + its TLS consequences), "b": TLS-layer part only (what the
+       handshake code does with a failure code that carries no authStatus),
+       no argument: everything */
+    int partA = (argc < 2 || argv[1][0] == 'a');
+    int partB = (argc < 2 || argv[1][0] == 'b');
 
-    g_trace = (argc > 1);
+    g_trace = (getenv("TRACE") != NULL);
     if (matrixSslOpen() < 0)
     {
         return 2;
@@ -146,11 +152,19 @@ int main(int argc, char **argv)
             allZero = 0;
         }
     }
-    if (rc < 0 && allZero)
+    if (rc >= 0)
     {
-        printf("   (failure code, but no certificate carries a failure "
-            "verdict: authStatus is 0 everywhere and the Evil CA was never "
-            "matched against a trust anchor)\n");
+        printf("VIOLATION: matrixValidateCerts reported success for a chain "
+            "that ends in an untrusted CA\n");
+        violations++;
+    }
+    else if (allZero && partA)
+    {
+        printf("VIOLATION: validator returned the failure code %d but no "
+            "certificate carries a failure verdict (authStatus is 0 "
+            "everywhere; the Evil CA was never matched against a trust "
+            "anchor)\n", (int) rc);
+        violations++;
     }
 
     /* 2. Controls: same attacker, but the Evil CA has a normal notBefore */
@@ -195,7 +209,7 @@ int main(int argc, char **argv)
           PS_ARG_FAIL makes every chain "valid".  The Evil CA here is the
           ordinary 2020 one that case 2 rejected. */
     g_badOpts = 1;
-    if (try_connect("TLS 1.3 client with nameType=NAME_TYPE_SAN_DNS + "
+    if (partB && try_connect("TLS 1.3 client with nameType=NAME_TYPE_SAN_DNS + "
             "VCERTS_MFLAG_ALWAYS_CHECK_SUBJECT_CN (validator returns "
             "PS_ARG_FAIL), chain [localhost <- Evil CA 2020]", v_tls_1_3, NULL,
             CERTDIR "/d1_evil2020.pem"))
@@ -208,11 +222,29 @@ int main(int argc, char **argv)
 
     psX509FreeCert(chain);
     psX509FreeCert(trusted);
+
+    /* Honest controls: [localhost <- Good Intermediate CA] under Good Root */
+    controlsFailed += !control_validate("validator, honest 2-cert chain",
+            CERTDIR "/ok_chain.pem", CERTDIR "/d1_root.pem");
+    controlsFailed += !control_connect("TLS 1.3, honest chain, no callback",
+            CERTDIR "/d1_root.pem", CERTDIR "/ok_chain.pem",
+            CERTDIR "/ok_leaf.key", v_tls_1_3, NULL);
+    controlsFailed += !control_connect("TLS 1.2, honest chain, pass-through "
+            "callback", CERTDIR "/d1_root.pem", CERTDIR "/ok_chain.pem",
+            CERTDIR "/ok_leaf.key", v_tls_1_2, certCb);
+    controlsFailed += !control_connect("TLS 1.2, honest chain, no callback",
+            CERTDIR "/d1_root.pem", CERTDIR "/ok_chain.pem",
+            CERTDIR "/ok_leaf.key", v_tls_1_2, NULL);
     matrixSslClose();
+    if (controlsFailed)
+    {
+        printf("CONTROL FAILED: an honest chain was refused\n");
+        return 3;
+    }
     if (violations)
     {
         return 1;
     }
-    printf("no violation\n");
+    printf("OK: no violation\n");
     return 0;
 }
